@@ -23,6 +23,9 @@ import (
 // Every failing launch is induced by a REAL input (no fault-injection hook): the case names the
 // step of Launch.tla that has to fail (fail, idx) and the recipe below arranges the input.
 func c07Main(args []string) error {
+	if err := setLauncherGroups(); err != nil {
+		return fmt.Errorf("setgroups: %w", err)
+	}
 	if len(args) < 4 {
 		return fmt.Errorf("usage: c07 cases obs scratch probe [strace]")
 	}
@@ -187,6 +190,9 @@ func c07cMain(args []string) error { return c07cRun(args) }
 // exits the whole process (crash = "exit") or blocks until the driver SIGKILLs the process ("kill").
 // Either way the sync socket closes without an ack and nobody kills the child.
 func c07hMain(args []string) error {
+	if err := setLauncherGroups(); err != nil {
+		return fmt.Errorf("setgroups: %w", err)
+	}
 	if len(args) < 3 {
 		return fmt.Errorf("usage: c07h scratch probe case.json")
 	}
